@@ -111,12 +111,15 @@ func scalarOrVec(t ssa.Type) bool {
 // The trampoline through which compiled code calls a Go (host) function copies every parameter into the
 // Go []uint64 with moves of the full width of the parameter's type: stated as the invariant of the parameter
 // loop - whatever was emitted before, after the iteration for a parameter the last instruction is a store of
-// that width, preceded (for a stack-passed parameter) by a load of that width.
+// that width, preceded (for a stack-passed parameter) by a load of that width. A 32-bit parameter occupies a
+// whole uint64 slot of the Go stack, documented as uint64(uint32(v)): its store must fill the slot - the code
+// stores 4 bytes and leaves the upper half stale (recorded known finding, C08).
 //@ func (m *machine) CompileGoFunctionTrampoline(exitCode wazevoapi.ExitCode, sig *ssa.Signature, needModuleContextPtr bool) []byte
 //@   ensures true
 //@   loop 0 (rangeindex int, cur *instruction, abi *backend.FunctionABI, argBegin int)
 //@     invariant abi != nil && -1 <= rangeindex && argBegin >= 0 && argBegin <= 2
 //@     invariant[each-parameter-moved-at-full-width] rangeindex >= 0 && argBegin+rangeindex < len(abi.Args) && scalarOrVec(abi.Args[argBegin+rangeindex].Type) ==> isStoreInstr(cur) && movBytes(cur) == typeBytes(abi.Args[argBegin+rangeindex].Type) && (abi.Args[argBegin+rangeindex].Kind != backend.ABIArgKindReg ==> cur.prev != nil && isLoadInstr(cur.prev) && movBytes(cur.prev) == typeBytes(abi.Args[argBegin+rangeindex].Type))
+//@     invariant[narrow-parameter-fills-its-slot] rangeindex >= 0 && argBegin+rangeindex < len(abi.Args) && (abi.Args[argBegin+rangeindex].Type == ssa.TypeI32 || abi.Args[argBegin+rangeindex].Type == ssa.TypeF32) ==> isStoreInstr(cur) && movBytes(cur) == 8
 //@   loop 1 (rangeindex int, cur *instruction, abi *backend.FunctionABI, execCtrPtr regalloc.VReg)
 //@     invariant abi != nil && -1 <= rangeindex
 //@     invariant[register-result-loaded-at-full-width] rangeindex >= 0 && rangeindex < len(abi.Rets) && scalarOrVec(abi.Rets[rangeindex].Type) && abi.Rets[rangeindex].Kind == backend.ABIArgKindReg && abi.Rets[rangeindex].Reg.RealReg() != execCtrPtr.RealReg() ==> isLoadInstr(cur) && movBytes(cur) == typeBytes(abi.Rets[rangeindex].Type)
